@@ -15,6 +15,13 @@ sed -i "s#/tmp/\(mut[bc]\?\|seedwt\)_[A-Za-z0-9_]*#$S#g" "$DEST/$(basename "$DEM
 cp "$DEST/$(basename "$DEMO")" "$S/"
 run_demo() { ( cd "$S" && PYTHONPATH="$S/src:$S" timeout 300 /venv/bin/python "$(basename "$DEMO")" >/dev/null 2>&1; echo $? ); }
 WITHOUT=$(run_demo)
+if ! ( cd "$S" && git apply --check --whitespace=nowarn "$DEST/patch.diff" 2>/dev/null ); then
+  # /repo HEAD moved on (fix: commits) since the author's worktree was taken: re-base the change with patch(1) fuzz, keep the original
+  ( cd "$S" && patch -p1 -F3 --no-backup-if-mismatch < "$DEST/patch.diff" >/dev/null 2>&1 ) || { echo "patch does not apply"; rm -rf "$S"; exit 3; }
+  cp "$DEST/patch.diff" "$DEST/patch_original_before_fix.diff"
+  ( cd "$S" && git diff -- . ':!demo_*' > "$DEST/patch.diff" && git checkout -q -- . )
+  echo "$NAME: patch re-based onto $(git -C /repo rev-parse --short HEAD)"
+fi
 ( cd "$S" && git apply --whitespace=nowarn "$DEST/patch.diff" ) || { echo "patch does not apply"; rm -rf "$S"; exit 3; }
 ( cd "$S" && PYTHONPATH="$S/src:$S" /venv/bin/python -c "import sdc11073, sdc11073.provider, sdc11073.consumer" ) && IMPORTS=ok || IMPORTS=fail
 WITH=$(run_demo)
